@@ -69,7 +69,7 @@ DLon(l, l0) == LET d == IF l - l0 < 0 THEN l0 - l ELSE l - l0 IN IF d > 180 THEN
 Around(s, dlons, lats, hs) == {<<W(s.lon0 + d), la, h, 2020>> : d \in dlons, la \in lats, h \in hs}
 
 \* ---- families ----------------------------------------------------------------------
-Families == {"tmerc", "utm", "btmerc", "butm", "merc", "webmerc", "lcc", "laea", "somerc", "omerc", "cart", "cart_high",
+Families == {"tmerc", "utm", "btmerc", "butm", "merc", "webmerc", "lcc", "laea", "laea_np", "somerc", "omerc", "cart", "cart_high",
              "latitude", "helmert_translation", "helmert_exact", "gridshift", "deformation", "dm", "dms", "unitconvert",
              "permtide", "geodesic", "molodensky", "axisswap", "adapt", "adapt_angular", "addone", "noop"}
 
@@ -104,6 +104,8 @@ Shapes(f) ==
                       \* latitude of origin at a pole (polar aspect of the cone's apex: rho0 = 0)
                       \cup {Sh("lcc lat_1=75 lat_2=85 lat_0=90 lon_0=10", 10, 0), Sh("lcc lat_1=-70 lat_2=-80 lat_0=-90 lon_0=10", 10, 0)}
       [] f = "laea" -> LaeaShapes
+      \* the same shapes, at points 1 km, 11 m and 0.1 m from a pole (the conditioning known for the pole itself reaches out)
+      [] f = "laea_np" -> LaeaShapes
       [] f = "somerc" -> {Sh("somerc lat_0=46.9524055555556 lon_0=7.43958333333333 k_0=1 x_0=2600000 y_0=1200000", 7, 47), Sh("somerc lat_0=47 lon_0=8", 8, 47),
                            Sh("somerc lat_0=47 lon_0=179", 179, 47), Sh("somerc lat_0=-41 lon_0=-179", -179, -41)}
       [] f = "omerc" -> {Sh("omerc lonc=115 latc=4 alpha=53:18:56.9537 gamma_c=53:07:48.3685 k_0=0.99984", 115, 4),
@@ -146,7 +148,7 @@ Shapes(f) ==
       [] f = "noop" -> {IntKind(Sh(t, 0, 0)) : t \in {"noop", "longlat", "latlon", "latlong", "lonlat"}}
 
 \* which families take `ellps` (all names of the table)
-TakesEllps(f) == f \in {"tmerc", "utm", "btmerc", "butm", "merc", "webmerc", "lcc", "laea", "somerc", "omerc", "cart", "cart_high",
+TakesEllps(f) == f \in {"tmerc", "utm", "btmerc", "butm", "merc", "webmerc", "lcc", "laea", "laea_np", "somerc", "omerc", "cart", "cart_high",
                         "latitude", "permtide", "geodesic"}
 EllpsOf(f) == IF TakesEllps(f) THEN Ellps ELSE NoEllps
 \* omerc's documented example is on evrstSS: that ellipsoid is part of the quick tier too
@@ -180,6 +182,10 @@ Pts(f, s) ==
       [] f \in {"webmerc", "lcc"} -> GeoPts(LonsGlobe, Lats89, {0})
       \* within 150 degrees of the centre: |dlat| + |dlon| bounds the spherical distance from above
       [] f = "laea" -> {p \in GeoPts({W(s.lon0 + d) : d \in LonsGlobe}, Lats90, {0}) : Abs(p[2] - s.lat0) + DLon(p[1], s.lon0) <= 150}
+      \* p[2] = +-k stands for the latitude +-(90 - 10^-k) degrees, written 89.99d, 89.9999d, 89.999999d
+      \* (within 150 degrees of the centre, as for laea: the pole opposite a polar or high-latitude centre is left out)
+      [] f = "laea_np" -> {p \in {<<W(s.lon0 + d), sg * k, 0, 2020>> : d \in {-170, -20, 0, 30, 135}, sg \in {-1, 1}, k \in {2, 4, 6}} :
+                              Abs((IF p[2] < 0 THEN -90 ELSE 90) - s.lat0) + DLon(p[1], s.lon0) <= 150}
       [] f = "somerc" -> {<<W(s.lon0 + a), s.lat0 + b, 400, 2020>> : a \in Near, b \in Near}
       [] f = "omerc" -> {<<W(s.lon0 + 2 * a), s.lat0 + b, 10, 2020>> : a \in Near, b \in Near}
       [] f = "cart" -> GeoPts(LonsGlobe, Lats90, HeightsLow)
@@ -202,6 +208,7 @@ InDomain(f, s, p) ==
       [] f \in {"btmerc", "butm"}  -> DLon(p[1], s.lon0) <= 3 /\ Abs(p[2]) <= 89
       [] f \in {"merc", "webmerc", "lcc"} -> Abs(p[1]) <= 180 /\ Abs(p[2]) <= 89 /\ (f = "merc" => Abs(p[2] + s.lat0) <= 89)
       [] f = "laea"                -> Abs(p[2] - s.lat0) + DLon(p[1], s.lon0) <= 150 /\ Abs(p[2]) <= 90
+      [] f = "laea_np"             -> Abs(p[2]) \in {2, 4, 6} /\ Abs((IF p[2] < 0 THEN -90 ELSE 90) - s.lat0) + DLon(p[1], s.lon0) <= 150
       [] f = "cart"                -> Abs(p[2]) <= 90 /\ p[3] >= -10000 /\ p[3] <= 100000
       [] f = "cart_high"           -> Abs(p[2]) <= 90 /\ p[3] > 100000 /\ p[3] <= 10000000
       [] f \in {"gridshift", "deformation"} -> p[1] > 40 /\ p[1] < 48 /\ p[2] > 216 /\ p[2] < 224      \* strictly inside coverage (quarter degrees)
@@ -211,8 +218,10 @@ InDomain(f, s, p) ==
 
 \* the text of a point, by domain kind
 Quarter(i) == S(i \div 4) \o (CASE i % 4 = 0 -> "" [] i % 4 = 1 -> ".25" [] i % 4 = 2 -> ".5" [] i % 4 = 3 -> ".75")
+Nines(k) == CASE k = 2 -> "99" [] k = 4 -> "9999" [] k = 6 -> "999999"
 PtText(f, s, p) ==
-    CASE f \in {"gridshift", "deformation"} -> <<Quarter(p[1]) \o "d", Quarter(p[2]) \o "d", S(p[3]), S(p[4])>>
+    CASE f = "laea_np" -> <<S(p[1]) \o "d", (IF p[2] < 0 THEN "-" ELSE "") \o "89." \o Nines(Abs(p[2])) \o "d", S(p[3]), S(p[4])>>
+      [] f \in {"gridshift", "deformation"} -> <<Quarter(p[1]) \o "d", Quarter(p[2]) \o "d", S(p[3]), S(p[4])>>
       [] s.dk = "geo" -> <<S(p[1]) \o "d", S(p[2]) \o "d", S(p[3]), S(p[4])>>
       [] s.dk = "latlon_deg" -> <<S(p[2]), S(p[1]), S(p[3]), S(p[4])>>
       [] OTHER -> <<S(p[1]), S(p[2]), S(p[3]), S(p[4])>>        \* lonlat_deg, int, lin, xyz, iso, geodesic: the integers themselves
